@@ -16,7 +16,8 @@ RULE = ('(table) the full product local tls_enable x require_tls {None,True,Fals
         'property text: TLS attempted <=> both offer; require_tls=True never proceeds in clear, False never secured; '
         'under TLS established <=> no presented identifier of a kind we hold a reference for contradicts it AND '
         '(host required => an IP or DNS identifier matches) AND (node required => a URI identifier matches); otherwise '
-        'SESS_TERM contact-failure or close and never established.  Observed: SESS_INIT on the wire, '
+        'SESS_TERM contact-failure or close and never established, and a transfer the refused peer offers afterwards is '
+        'neither acknowledged nor handed to the application.  Observed: SESS_INIT on the wire, '
         'session_state_changed(established), is_secure(), authn_* of get_session_parameters().  Non-trivial = TLS '
         'attempted and the certificate carries >= 1 SAN; distinct by SHA-1 of the case.')
 LEVEL = 'exploration'
@@ -251,6 +252,16 @@ def execute(case):
             pass
         world.settle()
     want = policy(case, peer_addr)
+    # a peer that was refused must not be able to use the connection as a session: it offers a complete transfer
+    refused_peer_transfer = False
+    if (not want['proceed'] or not want['established']) and not end.sock.closed:
+        try:
+            world.peer_send(r.encode({'t': 'XFER_SEGMENT', 'flags': 3, 'id': 7, 'ext': [r.transfer_length_ext(12)],
+                                      'data': b'from-refused'.hex()}))
+            refused_peer_transfer = True
+        except OSError:
+            pass
+        world.settle()
     msgs, _used, status = r.parse_stream(world.real_wire())
     sent_init = any(m['t'] == 'SESS_INIT' for m in msgs)
     terms = [m for m in msgs if m['t'] == 'SESS_TERM']
@@ -298,6 +309,15 @@ def execute(case):
                     out.fail('authn-dnsid-param', 'authn_dnsid=%r with SANs %s (by name: %s)' % (params.get('authn_dnsid'), kinds, case.get('by_name')))
                 if ('uri-match' in kinds and bool(nodeid)) != bool(params.get('authn_nodeid')):
                     out.fail('authn-nodeid-param', 'authn_nodeid=%r with SANs %s' % (params.get('authn_nodeid'), kinds))
+    if refused_peer_transfer:
+        out.label('refused-peer-offers-transfer')
+        got = end.signals('recv_bundle_finished')
+        acks = [m for m in msgs if m['t'] == 'XFER_ACK']
+        if got or acks:
+            out.fail('refused-peer-transfer-accepted', 'the session was refused (policy: proceed=%s established=%s) but a transfer '
+                     'offered afterwards by that peer was %s (sans=%s req_host=%s req_node=%s nodeid=%r)'
+                     % (want['proceed'], want['established'], 'received and announced to the application' if got else 'acknowledged',
+                        sans, case.get('req_host'), case.get('req_node'), nodeid))
     out.nontrivial = want['attempt'] and want['secured'] and bool(sans)
     out.label(case['kind'], 'active' if active else 'passive', 'attempt' if want['attempt'] else 'no-attempt',
               'proceed' if want['proceed'] else 'refused', 'estab' if want['established'] else 'not-estab')
